@@ -11,7 +11,7 @@ with a witness:
  D  list walk    cursor advances along a `_next`-style link, exit tests it for NULL
  E  listed       named exception with a reason
 """
-from .facts import Facts, Matcher, ANY, is_const, const_val, NEG, describe
+from .facts import Facts, Matcher, ANY, is_const, const_val, NEG, SWAP, norm_fact, describe
 from .ir import field_of_gep
 from .mem import root
 
@@ -247,6 +247,379 @@ def _invariant(fn, lp, o, cg, depth=0):
     return False
 
 
+# Read-like functions whose *contract* is consumption of a finite external sequence (bytes of the input, members of the archive,
+# declared length of a member, characters of stdin): a non-exhausted outcome means that sequence advanced.
+TRUSTED_IO = {"lha_reader_next_file", "lha_filter_next_file", "lha_basic_reader_next_file", "lha_reader_read", "lha_decoder_read",
+              "lha_input_stream_read", "do_read", "getchar", "getc", "extend_raw_data", "fread", "<callback>"}
+# Everything else in READ_LIKE belongs to the bit-level family, where "did not fail" does NOT by itself mean "consumed input":
+# peek_bits never consumes, read_bits(r, 0) consumes nothing, read_from_tree on a single-leaf tree reads no bit.  For those the
+# consumption is *derived* (consuming_function): every non-exhausted return lies behind a successful read_bits(r, n >= 1) /
+# read_bit, directly or through a function already shown to consume.
+_BIT_PRIMITIVES = {"read_bits", "read_bit"}
+
+
+def refutes_exhausted(M, facts, vid, cn):
+    """the facts exclude every exhausted outcome of read-like callee cn for the value with SSA id vid"""
+    lo, hi = -(1 << 63), (1 << 63) - 1
+    nonzero = False
+    for f in facts:
+        if M.strip(f[1]) != ("v", vid) or not is_const(f[2]) or const_val(f[2]) is None:
+            continue
+        kk = const_val(f[2])
+        if kk >= (1 << 31) and f[0][0] == "s":
+            kk -= (1 << 32)
+        if f[0] in ("sgt", "ugt"):
+            lo = max(lo, kk + 1)
+        elif f[0] in ("sge", "uge"):
+            lo = max(lo, kk)
+        elif f[0] == "slt":
+            hi = min(hi, kk - 1)
+        elif f[0] == "sle":
+            hi = min(hi, kk)
+        elif f[0] == "eq":
+            lo, hi = max(lo, kk), min(hi, kk)
+        elif f[0] == "ne" and kk == 0:
+            nonzero = True
+    for pred, k in READ_LIKE[cn]:
+        ex_lo, ex_hi = {"eq": (k, k), "slt": (-(1 << 63), k - 1), "sle": (-(1 << 63), k), "ule": (0, k)}.get(pred, (None, None))
+        ok_ = ex_lo is not None and (hi < ex_lo or lo > ex_hi)
+        if pred in ("eq", "ule") and k == 0 and nonzero:
+            ok_ = True
+        if M.find_fact((NEG[pred], ("inst", vid), k), facts)[0] is not None:
+            ok_ = True
+        if not ok_:
+            return False
+    return True
+
+
+def _const_exhausted(cn, o):
+    if not is_const(o) or const_val(o) is None:
+        return False
+    k = const_val(o)
+    if k >= (1 << 31):
+        k -= (1 << 32)
+    for pred, c in READ_LIKE[cn]:
+        if (pred == "eq" and k == c) or (pred == "slt" and k < c) or (pred == "sle" and k <= c) or (pred == "ule" and 0 <= k <= c):
+            return True
+    return False
+
+
+_consume_cache = {}
+
+
+def call_consumes(fn, F, M, c, cn, stack=()):
+    """a non-exhausted outcome of read-like call c (callee C name cn) in fn means that input was consumed"""
+    if cn in TRUSTED_IO:
+        return True
+    if cn == "read_bits":
+        if len(c.ops) < 2:
+            return False
+        n = c.ops[1]
+        if is_const(n):
+            return 0 < const_val(n) < (1 << 31)
+        fs = F.at_inst(c)
+        ns = M.strip(n)
+        return any(M.strip(f[1]) == ns and is_const(f[2]) and ((f[0] in ("ugt", "sgt") and const_val(f[2]) >= 0) or (f[0] in ("uge", "sge") and const_val(f[2]) >= 1) or
+                                                                 (f[0] == "ne" and const_val(f[2]) == 0)) for f in fs)
+    g = fn.mod.functions.get(c.callee) if c.callee else None
+    if g is None or g.decl:
+        return False
+    return consuming_function(g, stack)
+
+
+def _bit_decrements(g, F, M):
+    """stores `reader->bits = reader->bits - c` with a constant c >= 1 under a fact that the count is at least c (no wrap)"""
+    out = []
+    for st in g.insts():
+        if st.op != "store":
+            continue
+        a = g.defn(st.ops[1])
+        fo = field_of_gep(g.mod, a) if a is not None and not a.is_param and a.op == "getelementptr" else None
+        if not fo or fo != ("BitStreamReader", "bits"):
+            continue
+        e = M.match(("bin", "sub", ("bind", "x", ("load", ("field", "BitStreamReader", "bits", ANY))), ("bind", "c", ("const",))), st.ops[0], {})
+        c = const_val(e["c"]) if e is not None else None
+        if e is None:
+            e = M.match(("bin", "add", ("bind", "x", ("load", ("field", "BitStreamReader", "bits", ANY))), ("bind", "c", ("const",))), st.ops[0], {})
+            c = None
+            if e is not None and const_val(e["c"]) is not None:
+                c = (1 << 32) - const_val(e["c"]) if const_val(e["c"]) >= (1 << 31) else -const_val(e["c"])
+        if e is None or c is None or not (1 <= c <= 32):
+            continue
+        fs = F.at_inst(st)
+        xs = M.strip(e["x"])
+        if any(M.strip(f[1]) == xs and is_const(f[2]) and ((f[0] == "ne" and const_val(f[2]) == 0 and c == 1) or (f[0] == "uge" and const_val(f[2]) >= c) or
+                                                         (f[0] == "ugt" and const_val(f[2]) >= c - 1)) for f in fs) or \
+                any(M.match(("load", ("field", "BitStreamReader", "bits", ANY)), f[1], {}) is not None and is_const(f[2]) and
+                    ((f[0] == "ne" and const_val(f[2]) == 0 and c == 1) or (f[0] == "uge" and const_val(f[2]) >= c) or (f[0] == "ugt" and const_val(f[2]) >= c - 1)) for f in fs):
+            out.append(st)
+    return out
+
+
+def consuming_function(g, stack=()):
+    """every return of g whose value is not an exhausted outcome lies behind a successful consuming read"""
+    key = (id(g.mod), g.name)
+    if key in _consume_cache:
+        return _consume_cache[key]
+    if g.name in stack or g.cname not in READ_LIKE:
+        return False
+    from .facts import Facts
+    F = Facts(g)
+    M = Matcher(g)
+    reads = []
+    for i in g.insts():
+        if i.op == "call":
+            cn = g.mod.callee_cname(i)
+            if cn in READ_LIKE and cn not in TRUSTED_IO and call_consumes(g, F, M, i, cn, stack + (g.name,)):
+                reads.append((i, cn))
+    ok = True
+    nret = 0
+    for r in g.insts():
+        if r.op != "ret" or not r.ops:
+            continue
+        for s, fs in F.sources(r.ops[0]):
+            nret += 1
+            if _const_exhausted(g.cname, s):
+                continue
+            ss = M.strip(s)
+            if any(ss == ("v", c.id) and READ_LIKE[cn] == READ_LIKE[g.cname] for c, cn in reads):
+                continue            # the result of a consuming read handed on unchanged: exhausted stays exhausted, success consumed
+            if any(refutes_exhausted(M, fs, c.id, cn) for c, cn in reads):
+                continue
+            # taken straight from the bit buffer: the value is computed in a block through which `reader->bits -= c` (c >= 1) runs,
+            # under the fact that at least that many bits are waiting
+            ds = g.defn(ss)
+            if ds is not None and not ds.is_param and any(g.dominates(st.block.id, ds.block.id) for st in _bit_decrements(g, F, M)):
+                continue
+            ok = False
+    ok = ok and nret > 0
+    _consume_cache[key] = ok
+    return ok
+
+
+INF = float("inf")
+
+
+def _sc(k, bits=32):
+    return k - (1 << bits) if k >= (1 << (bits - 1)) else k
+
+
+def interval(fn, F, M, v, facts, depth=0, seen=frozenset(), bound=None):
+    """signed interval (lo, hi) of integer operand v wherever `facts` and the facts at v's definition hold; (-INF, INF) if unknown.
+    A small expression evaluator (constants, + - << >> & % / casts, phi/select, read_bits) - enough for counts decoded from a few bits."""
+    if is_const(v):
+        c = const_val(v)
+        if c is None:
+            return (-INF, INF)
+        return (_sc(c, 64) if c >= (1 << 63) else (_sc(c) if (1 << 31) <= c < (1 << 32) else c),) * 2
+    d = fn.defn(v)
+    if d is None or depth > 10:
+        return (-INF, INF)
+    w = fn.mod.int_bits(d.ty) or 64
+    lo, hi = -(1 << (w - 1)), (1 << (w - 1)) - 1            # whatever it is, it is a w-bit value (read as signed)
+    if bound is not None:                                   # v is the source that produced a merged value known to lie in `bound`
+        lo, hi = max(lo, bound[0]), min(hi, bound[1])
+
+    def meet(a, b):
+        return (max(a[0], b[0]), min(a[1], b[1]))
+    allf = set(facts) | (set(F.at_inst(d)) if not d.is_param else set())
+    vs = M.strip(v, ())
+    known_nonneg = False
+    for f in allf:
+        if M.strip(f[1], ()) != vs or not is_const(f[2]) or const_val(f[2]) is None:
+            continue
+        k = _sc(const_val(f[2]), w) if w in (8, 16, 32, 64) and const_val(f[2]) >= (1 << (w - 1)) else const_val(f[2])
+        if f[0] == "sge":
+            lo = max(lo, k)
+        elif f[0] == "sgt":
+            lo = max(lo, k + 1)
+        elif f[0] == "sle":
+            hi = min(hi, k)
+        elif f[0] == "slt":
+            hi = min(hi, k - 1)
+        elif f[0] == "eq":
+            lo, hi = max(lo, k), min(hi, k)
+        elif f[0] in ("ult", "ule") and k >= 0:
+            # unsigned upper bound below 2^(w-1): the value is non-negative and below it
+            lo, hi = max(lo, 0), min(hi, k - 1 if f[0] == "ult" else k)
+    if d.is_param:
+        return (lo, hi)
+    r = (-INF, INF)
+    op = d.op
+    sub = lambda o: interval(fn, F, M, o, allf, depth + 1, seen)      # d exists only where the facts at its definition hold: so do its operands there
+    if op in ("add", "sub"):
+        a, b = sub(d.ops[0]), sub(d.ops[1])
+        r = (a[0] + b[0], a[1] + b[1]) if op == "add" else (a[0] - b[1], a[1] - b[0])
+        if r[0] < -(1 << (w - 1)) or r[1] >= (1 << (w - 1)):
+            r = (-INF, INF)         # may wrap
+    elif op in ("zext", "sext", "trunc"):
+        a = sub(d.ops[0])
+        wf = fn.mod.int_bits(fn.defn(d.ops[0]).ty) if fn.defn(d.ops[0]) is not None else None
+        if op == "zext":
+            r = a if a[0] >= 0 else ((0, (1 << wf) - 1) if wf else (0, INF))
+        elif op == "sext":
+            r = a
+        else:
+            r = a if a[0] >= -(1 << (w - 1)) and a[1] < (1 << (w - 1)) else (-INF, INF)
+    elif op == "and":
+        for x in d.ops:
+            if is_const(x) and const_val(x) is not None and 0 <= const_val(x) < (1 << (w - 1)):
+                r = meet(r, (0, const_val(x)))
+        a, b = sub(d.ops[0]), sub(d.ops[1])
+        if a[0] >= 0:
+            r = meet(r, (0, a[1]))
+        if b[0] >= 0:
+            r = meet(r, (0, b[1]))
+    elif op in ("srem", "urem") and is_const(d.ops[1]) and (const_val(d.ops[1]) or 0) > 0:
+        c = const_val(d.ops[1])
+        a = sub(d.ops[0])
+        r = (0, c - 1) if (a[0] >= 0 or op == "urem") else (-(c - 1), c - 1)
+    elif op in ("sdiv", "udiv") and is_const(d.ops[1]) and (const_val(d.ops[1]) or 0) > 0:
+        c = const_val(d.ops[1])
+        a = sub(d.ops[0])
+        if a[0] >= 0 and a[1] < INF:
+            r = (a[0] // c, a[1] // c)
+    elif op == "shl":
+        a, b = sub(d.ops[0]), sub(d.ops[1])
+        if a[0] >= 0 and b[0] >= 0 and a[1] < INF and b[1] < w and (a[1] << int(b[1])) < (1 << (w - 1)):
+            r = (a[0] << int(b[0]), a[1] << int(b[1]))
+    elif op in ("lshr", "ashr"):
+        a, b = sub(d.ops[0]), sub(d.ops[1])
+        if a[0] >= 0 and b[0] >= 0 and a[1] < INF and b[1] < INF:
+            r = (a[0] >> int(min(b[1], 63)), a[1] >> int(b[0]))
+    elif op == "phi" or op == "select":
+        if d.id in seen:
+            r = (INF, -INF)             # contributes nothing to the union
+        else:
+            srcs = [(x, F.on_edge(pb, d.block.id)) for x, pb in d.incoming] if op == "phi" else \
+                [(d.ops[1], F.cond_facts(d.ops[0], True)), (d.ops[2], F.cond_facts(d.ops[0], False))]
+            ulo, uhi = INF, -INF
+            for x, fs in srcs:
+                a = interval(fn, F, M, x, set(allf) | set(fs), depth + 1, seen | {d.id}, (lo, hi))
+                a = meet(a, (lo, hi))           # what is known of the merged value holds for the source that produced it
+                if a[0] > a[1]:
+                    continue                    # this source is excluded by the facts
+                ulo, uhi = min(ulo, a[0]), max(uhi, a[1])
+            r = (ulo, uhi) if ulo <= uhi else (-INF, INF)
+    elif op == "call":
+        cn = fn.mod.callee_cname(d)
+        if cn in ("read_bits", "peek_bits") and len(d.ops) >= 2:
+            n = sub(d.ops[1])
+            if 0 <= n[0] and n[1] <= 30:
+                r = (-1, (1 << int(n[1])) - 1)
+        elif cn == "read_bit":
+            r = (-1, 1)
+    elif op == "load" and d.size in (1, 2):
+        r = (-(1 << (8 * d.size - 1)), (1 << (8 * d.size)) - 1)
+    return meet(r, (lo, hi))
+
+
+def _positive(fn, F, M, v, facts):
+    """v > 0 wherever `facts` hold"""
+    iv = interval(fn, F, M, v, facts)
+    return iv[0] >= 1 and iv[0] <= iv[1]
+
+
+def _first_iteration_runs(fn, F, M, L):
+    """the loop L cannot be left during its first pass through the header region: walking from the header with the header phis at
+    their entry values, every branch met is decided by the facts on the entry edge and stays inside L until a back edge (or a point
+    from which no exit of L is reachable without passing the header again)"""
+    hdr = L["header"]
+    body = L["body"]
+    entries = [p for p in fn.blocks[hdr].preds if p not in body]
+    if len(entries) != 1:
+        return False
+    pre = entries[0]
+    facts = set(F.on_edge(pre, hdr))
+    env = {}
+    for i in fn.blocks[hdr].insts:
+        if i.op == "phi":
+            for v, pb in i.incoming:
+                if pb == pre:
+                    env[i.id] = v
+
+    def sub(o):
+        o2 = M.strip(o, ("bitcast",)) if not is_const(o) else o
+        if o2[0] == "v" and o2[1] in env:
+            return env[o2[1]]
+        o3 = M.strip(o) if not is_const(o) else o          # a widened / narrowed copy of a phi that enters with a small constant
+        if o3[0] == "v" and o3[1] in env and is_const(env[o3[1]]) and const_val(env[o3[1]]) is not None and 0 <= const_val(env[o3[1]]) < 128:
+            return env[o3[1]]
+        return o
+
+    def truth(o, depth=0):
+        """True / False / None for an i1 operand under env + facts"""
+        if is_const(o):
+            return bool(const_val(o))
+        if o[0] == "v" and o[1] in env:
+            return truth(env[o[1]], depth + 1) if depth < 6 else None
+        d = fn.defn(o)
+        if d is None or d.is_param or d.op != "icmp":
+            return None
+        a, b = sub(d.ops[0]), sub(d.ops[1])
+        pred = d.pred
+        if is_const(a) and is_const(b):
+            x, y = const_val(a), const_val(b)
+            if pred[0] == "s":
+                x = x - (1 << 32) if x >= (1 << 31) else x
+                y = y - (1 << 32) if y >= (1 << 31) else y
+            return {"eq": x == y, "ne": x != y, "slt": x < y, "ult": x < y, "sle": x <= y, "ule": x <= y, "sgt": x > y, "ugt": x > y, "sge": x >= y, "uge": x >= y}[pred]
+        p_, a_, b_ = norm_fact(pred, a, b)
+        for cand, val in (((p_, a_, b_), True), ((NEG[p_], a_, b_), False)):
+            for f in facts:
+                if f[0] == cand[0] and M.strip(f[1]) == M.strip(cand[1]) and (f[2] == cand[2] or (not is_const(f[2]) and not is_const(cand[2]) and M.strip(f[2]) == M.strip(cand[2]))):
+                    return val
+                if not is_const(f[2]) and not is_const(cand[2]) and f[0] == SWAP[cand[0]] and M.strip(f[1]) == M.strip(cand[2]) and M.strip(f[2]) == M.strip(cand[1]):
+                    return val
+        # x > 0 / x >= 1 / x != 0 for a value shown positive by its sources
+        if is_const(b_) and ((p_ in ("sgt", "ugt", "ne") and const_val(b_) == 0) or (p_ in ("sge", "uge") and const_val(b_) == 1)):
+            if _positive(fn, F, M, a_, facts):
+                return True
+        if is_const(b_) and ((p_ in ("sle", "ule", "eq") and const_val(b_) == 0) or (p_ in ("slt", "ult") and const_val(b_) == 1)):
+            if _positive(fn, F, M, a_, facts):
+                return False
+        return None
+
+    cur, prev = hdr, pre
+    for _ in range(64):
+        blk = fn.blocks[cur]
+        if cur != hdr:
+            for i in blk.insts:
+                if i.op == "phi":
+                    for v, pb in i.incoming:
+                        if pb == prev:
+                            env[i.id] = sub(v) if not is_const(v) else v
+        t = blk.term
+        succs = blk.succs
+        if len(succs) == 1:
+            nxt = succs[0]
+        elif t.op == "br" and len(t.succs) == 2 and t.ops:
+            tv = truth(t.ops[0])
+            if tv is None:
+                break
+            nxt = t.succs[0] if tv else t.succs[1]
+        else:
+            break
+        if nxt not in body:
+            return False
+        if nxt == hdr:
+            return True
+        prev, cur = cur, nxt
+    # stuck at `cur`: fine only if no exit of L can be reached from here without passing the header again
+    seen, work = set(), [cur]
+    while work:
+        x = work.pop()
+        if x in seen or x == hdr and x != cur:
+            continue
+        seen.add(x)
+        for s2 in fn.blocks[x].succs:
+            if s2 not in body:
+                return False
+            if s2 != hdr:
+                work.append(s2)
+    return True
+
+
 def classify(fn, F, cg=None, exceptions=None):
     """returns list of LoopInfo for fn"""
     M = Matcher(fn)
@@ -421,37 +794,11 @@ def classify(fn, F, cg=None, exceptions=None):
                             if fo and fo[1] in ("callback", "read"):
                                 calls.append((i, "<callback>"))
         def refutes(facts, vid, cn):
-            """the facts exclude every exhausted outcome of read-like callee cn for the value with SSA id vid"""
-            lo, hi = -(1 << 63), (1 << 63) - 1
-            nonzero = False
-            for f in facts:
-                if M.strip(f[1]) != ("v", vid) or not is_const(f[2]) or const_val(f[2]) is None:
-                    continue
-                kk = const_val(f[2])
-                if kk >= (1 << 31) and f[0][0] == "s":
-                    kk -= (1 << 32)
-                if f[0] in ("sgt", "ugt"):
-                    lo = max(lo, kk + 1)
-                elif f[0] in ("sge", "uge"):
-                    lo = max(lo, kk)
-                elif f[0] == "slt":
-                    hi = min(hi, kk - 1)
-                elif f[0] == "sle":
-                    hi = min(hi, kk)
-                elif f[0] == "eq":
-                    lo, hi = max(lo, kk), min(hi, kk)
-                elif f[0] == "ne" and kk == 0:
-                    nonzero = True
-            for pred, k in READ_LIKE[cn]:
-                ex_lo, ex_hi = {"eq": (k, k), "slt": (-(1 << 63), k - 1), "sle": (-(1 << 63), k), "ule": (0, k)}.get(pred, (None, None))
-                ok_ = ex_lo is not None and (hi < ex_lo or lo > ex_hi)
-                if pred in ("eq", "ule") and k == 0 and nonzero:
-                    ok_ = True
-                if M.find_fact((NEG[pred], ("inst", vid), k), facts)[0] is not None:
-                    ok_ = True
-                if not ok_:
-                    return False
-            return True
+            return refutes_exhausted(M, facts, vid, cn)
+        nonconsuming = [(c, cn) for c, cn in calls if not call_consumes(fn, F, M, c, cn)]
+        calls = [(c, cn) for c, cn in calls if (c, cn) not in nonconsuming]
+        if nonconsuming:
+            li.notes.append("not a progress witness (a successful outcome need not consume input): %s" % sorted({cn for _, cn in nonconsuming}))
         for c, cn in calls:
             good = True
             for latch in lp["latches"]:
@@ -568,7 +915,27 @@ def _class_a_latch(fn, F, M, lp, li, p, up, steps, cg):
                 return
 
 
-def _monotone(fn, M, p, v, down, seen):
+def _infeasible_incoming(fn, M, d, pb, facts):
+    """incoming edge pb of phi d cannot be the one taken when `facts` hold: a sibling phi of the same block (a status flag) receives a
+    constant along pb that the facts about that sibling exclude"""
+    for q in d.block.insts:
+        if q.op != "phi" or q.id == d.id:
+            continue
+        for v, b in q.incoming:
+            if b != pb or not is_const(v) or const_val(v) is None:
+                continue
+            k = const_val(v)
+            for f in facts:
+                if M.strip(f[1], ()) != ("v", q.id) or not is_const(f[2]) or const_val(f[2]) is None:
+                    continue
+                c = const_val(f[2])
+                if (f[0] == "ne" and k == c) or (f[0] == "eq" and k != c) or (f[0] in ("ugt", "sgt") and k <= c and k >= 0 and c >= 0) or \
+                        (f[0] in ("uge", "sge") and k < c and k >= 0 and c >= 0):
+                    return True
+    return False
+
+
+def _monotone(fn, M, p, v, down, seen, F=None, facts=()):
     """does value v derive from phi p only through decrements (down) / increments; returns (ok, strict)"""
     v = M.strip(v)
     if v == ("v", p.id):
@@ -581,10 +948,37 @@ def _monotone(fn, M, p, v, down, seen):
     seen = seen | {d.id}
     if d.op == "phi":
         strict = True
-        for x, _ in d.incoming:
-            ok, st = _monotone(fn, M, p, x, down, seen)
+        # header phi of an inner loop that cannot be left during its first pass: whenever the inner loop is left, the phi holds a value
+        # that came round a back edge, so only those incomings need to be strict
+        inner = None
+        if F is not None:
+            for L in fn.loops():
+                if L["header"] == d.block.id and L["header"] != p.block.id and _first_iteration_runs(fn, F, M, L):
+                    inner = L
+        # facts of the back edge apply to this evaluation of the phi only if its block is not inside a loop nested in p's loop
+        nested = any(d.block.id in L["body"] and L["header"] != p.block.id and p.block.id not in L["body"] for L in fn.loops())
+        for x, pb in d.incoming:
+            if facts and not nested and _infeasible_incoming(fn, M, d, pb, facts):
+                continue
+            f2 = facts
+            if facts and not nested:
+                # what is known of a sibling flag phi holds for the value it received along this edge
+                extra = set()
+                for q in d.block.insts:
+                    if q.op != "phi" or q.id == d.id:
+                        continue
+                    for qv, qb in q.incoming:
+                        if qb == pb and not is_const(qv):
+                            for f in facts:
+                                if M.strip(f[1], ()) == ("v", q.id) and is_const(f[2]):
+                                    extra.add((f[0], qv, f[2]))
+                if extra:
+                    f2 = set(facts) | extra
+            ok, st = _monotone(fn, M, p, x, down, seen, F, f2)
             if not ok:
                 return False, False
+            if inner is not None and pb not in inner["body"]:
+                continue
             strict = strict and st
         return True, strict
     c = None
@@ -593,8 +987,18 @@ def _monotone(fn, M, p, v, down, seen):
     elif d.op == "getelementptr" and len([s for s in d.steps if "idx" in s]) == 1 and is_const(d.steps[0]["idx"]):
         c = const_val(d.steps[0]["idx"])
     if c is not None and c != 0 and ((c < 0) == down):
-        ok, st = _monotone(fn, M, p, d.ops[0], down, seen)
+        ok, st = _monotone(fn, M, p, d.ops[0], down, seen, F, facts)
         return ok, True
+    if F is not None and d.op == "add" and not is_const(d.ops[1]) and not down:
+        # p-derived value plus an amount whose interval is non-negative: strict when it is at least 1.  (Only upwards, and only when the
+        # sum cannot wrap past the bound test: a 64-bit counter, or an amount below 2^16.  Downwards `P - X` needs X <= P: class A'.)
+        wd = fn.mod.int_bits(d.ty) or 0
+        for a, b in ((d.ops[0], d.ops[1]), (d.ops[1], d.ops[0])):
+            iv = interval(fn, F, M, b, facts)
+            if iv[0] >= 0 and iv[0] <= iv[1] and (wd >= 64 and iv[1] < (1 << 32) or iv[1] < (1 << 16)):
+                ok, st = _monotone(fn, M, p, a, down, seen, F, facts)
+                if ok:
+                    return True, st or iv[0] >= 1
     return False, False
 
 
@@ -607,12 +1011,14 @@ def _more_classes(fn, F, M, lp, li, phis, cg):
         name = fn.var_name(p.id) or "%%%d" % p.id
         # monotone chain (nested loops modify the same variable)
         for down in (True, False):
-            res = [_monotone(fn, M, p, v, down, frozenset()) for v, b in backs]
+            res = [_monotone(fn, M, p, v, down, frozenset(), F, F.on_edge(b, lp["header"])) for v, b in backs]
             if all(ok and st for ok, st in res):
                 good = ("sle", "slt", "ule", "ult") if down else ("sge", "sgt", "uge", "ugt")
+                # the bound may be tested on the counter itself (while) or on its updated value (do ... while)
+                tested = {("v", p.id)} | {M.strip(v) for v, b in backs}
                 for (b, s) in lp["exits"]:
                     for f in F.edge_facts(b, s):
-                        if M.strip(f[1]) == ("v", p.id) and _invariant(fn, lp, f[2], cg) and f[0] in good:
+                        if M.strip(f[1]) in tested and _invariant(fn, lp, f[2], cg) and f[0] in good:
                             li.cls = "A"
                             li.witness = "%s only %s (strictly, on every path through the body and its inner loops); exit when it is %s the invariant bound" % (
                                 name, "decreases" if down else "increases", f[0])
@@ -620,7 +1026,8 @@ def _more_classes(fn, F, M, lp, li, phis, cg):
                 ok_l = True
                 for latch in lp["latches"]:
                     fl = F.on_edge(latch, lp["header"])
-                    if not any(M.strip(f[1]) == ("v", p.id) and _invariant(fn, lp, f[2], cg) and f[0] in (("sge", "sgt", "uge", "ugt") if down else ("sle", "slt", "ule", "ult")) for f in fl):
+                    mine = {("v", p.id)} | {M.strip(v) for v, b in backs if b == latch}
+                    if not any(M.strip(f[1]) in mine and _invariant(fn, lp, f[2], cg) and f[0] in (("sge", "sgt", "uge", "ugt") if down else ("sle", "slt", "ule", "ult")) for f in fl):
                         ok_l = False
                 if ok_l and lp["latches"]:
                     li.cls = "A"
